@@ -9,7 +9,13 @@ every solve through the compacted active-DOF path), and driven from identical st
         qfrc_constraint == 0 and keep qpos/qvel across a step, the compaction maps are mutually inverse over the awake
         DOFs, awake DOFs get the acceleration of the full solve;
 (nvmax)  the same subsets with a DOF capacity swept through the active count: OverflowType.NVMAX is set exactly in the
-        worlds whose active count exceeds the capacity, and worlds that fit reproduce the full-capacity result.
+        worlds whose active count exceeds the capacity, and worlds that fit reproduce the full-capacity result;
+(history) ONE Data with a small requested capacity (mostly nvmax_pad < nv, scenes of >= 24 DOFs) walked through a
+        history of awake sets that change at every call (trees owning high-index DOFs awake first and asleep later and the
+        reverse, calls above capacity interleaved with calls that fit), through mjw.forward of the sleep-enabled model and
+        through update_active_dofs + smooth_solve_compact + solve_compact called directly on a flag-free Data: after every
+        call the NVMAX bit is set exactly above capacity, the maps are consistent, frozen DOFs are exactly zero and awake
+        DOFs equal the full solve.
 """
 
 import mujoco
@@ -24,15 +30,19 @@ RULE = (
   "case=(kind, scene seed): generated scene of 1-6 trees on a plane (free bodies, stacks, cart+pendulum, arms, limited "
   "sliders, frictionloss, equalities, limited tendons), dense or sparse Jacobian, pyramidal or elliptic cone. equiv: 6 worlds "
   "with random states, forward + 40 steps with teleports; frozen: one world per subset of trees (<=64) forced asleep; nvmax: "
-  "the subsets x 3-5 capacities around the active DOF counts. Non-trivial: >=1 world with active constraints (equiv), "
-  ">=1 tree that stayed frozen and >=1 awake tree (frozen), >=1 world above and >=1 at/below capacity (nvmax); "
-  "distinct by hash(kind, xml, states)."
+  "the subsets x 3-5 capacities around the active DOF counts; history: scene of 4-8 trees with nv >= 24, one Data of 8 worlds with "
+  "nvmax drawn so that 16*(nvmax//16+1) < nv (80%) or anywhere in [4, nv) (20%), 6 calls per world with a fresh random asleep "
+  "group-subset each (worlds 0/1: high-index trees awake then low-index trees awake and the reverse), sleep-enabled forward or "
+  "direct compact-solver calls on a flag-free Data. Non-trivial: >=1 world with active constraints (equiv), "
+  ">=1 tree that stayed frozen and >=1 awake tree (frozen), >=1 world above and >=1 at/below capacity (nvmax), >=1 call above and "
+  ">=1 within capacity and >=1 change of the awake set (history); distinct by hash(kind, xml, states)."
 )
 ASSUMPTIONS = [
   "the flag-free model (full solve) is the reference for the sleep-enabled model of the same XML at the same state",
   "round-off allowance 1e-4 relative, violation from 1e-2 relative (first-divergence rule, one-step horizon: the integration state of the sleep-enabled Data is re-synchronised to the reference after every step); both solves must report fewer iterations than the limit; worlds whose reference problem is degenerate (a row with D > 1e10, non-finite reference) are not judged",
   "trees are forced asleep the way the repository's tests do it: tree_asleep self-cycles written into Data + sleep.update_sleep",
   "c* workspace arrays of Data are scratch: in 'poison' cases they are overwritten with finite garbage before the observed call",
+  "history cases: the full solve determines qfrc_constraint only up to its own stationarity residual g = M qacc - qfrc_smooth - qfrc_constraint (float32 termination of the full problem whose cost is dominated by other trees); differences up to 3|g| are not judged, residuals above 1e-3 relative make the field inconclusive; values of calls above capacity are not judged (documented as undefined), only the bit",
 ]
 LEVEL_TEXT = (
   "Runtime metamorphic monitoring: compacted path versus full solve of the same model over generated states, exhaustive over "
@@ -49,7 +59,9 @@ CW = ("cM", "cqLD", "crhs", "cx", "cJ", "cMa", "cqfrc_smooth", "cqacc_smooth", "
 
 def cases(tier, seed):
   out = []
-  n = {"quick": (30, 24, 16), "thorough": (400, 300, 160)}[tier]
+  n = {"quick": (30, 24, 16, 14), "thorough": (400, 300, 160, 160)}[tier]
+  for i in range(n[3]):
+    out.append({"id": f"history{seed}_{i}", "kind": "history", "seed": seed * 100000 + 9000 + i, "direct": i % 2 == 1, "weight": 3})
   for i in range(n[1]):
     out.append({"id": f"frozen{seed}_{i}", "kind": "frozen", "seed": seed * 100000 + 3000 + i, "weight": 3})
   for i in range(n[2]):
@@ -59,20 +71,29 @@ def cases(tier, seed):
   return out
 
 
-def build(case, rec, ntree, p_touch, links=True):
-  rng = np.random.default_rng(case["seed"])
-  jac = str(rng.choice(["dense", "sparse"]))
-  cone = str(rng.choice(["pyramidal", "elliptic"]))
-  integ = str(rng.choice(["Euler", "implicitfast"]))
-  kw = dict(ntree=ntree, jac=jac, cone=cone, integrator=integ, iterations=ITER, p_touch=p_touch, links=links, tol=1e-9)
-  xml_s, meta = _isl.sleep_scene(case["seed"], sleep=True, **kw)
-  xml_f, _ = _isl.sleep_scene(case["seed"], sleep=False, **kw)
-  try:
-    mjm_s = mujoco.MjModel.from_xml_string(xml_s)
-    mjm_f = mujoco.MjModel.from_xml_string(xml_f)
-  except Exception as e:  # noqa
-    rec.rejected = f"mujoco compile: {e}"[:200]
-    return None
+def build(case, rec, ntree, p_touch, links=True, kinds=None, min_nv=0):
+  """kinds / min_nv (history cases): tree-kind palette and the smallest DOF count wanted (the scene seed is advanced until met)."""
+  for attempt in range(10):
+    sseed = case["seed"] + 7919 * attempt
+    rng = np.random.default_rng(sseed)
+    jac = str(rng.choice(["dense", "sparse"]))
+    cone = str(rng.choice(["pyramidal", "elliptic"]))
+    integ = str(rng.choice(["Euler", "implicitfast"]))
+    kw = dict(ntree=ntree, jac=jac, cone=cone, integrator=integ, iterations=ITER, p_touch=p_touch, links=links, tol=1e-9)
+    if kinds is not None:
+      kw["kinds"] = kinds
+    xml_s, meta = _isl.sleep_scene(sseed, sleep=True, **kw)
+    xml_f, _ = _isl.sleep_scene(sseed, sleep=False, **kw)
+    try:
+      mjm_s = mujoco.MjModel.from_xml_string(xml_s)
+      mjm_f = mujoco.MjModel.from_xml_string(xml_f)
+    except Exception as e:  # noqa
+      if min_nv and attempt < 9:
+        continue
+      rec.rejected = f"mujoco compile: {e}"[:200]
+      return None
+    if mjm_s.nv >= min_nv and not (min_nv and mjm_s.nv > 60 and jac == "dense"):
+      break
   if mjm_s.nv > 60 and jac == "dense":
     rec.rejected = "dense nv>60"
     return None
@@ -149,7 +170,7 @@ def force_bound(ds_np, df_np, w, nefc):
   return D * (dq + ro)
 
 
-def compare_world(rec, ms, ds_np, df_np, w, fields, ctx, dofs=None, tally="equiv", certify=None):
+def compare_world(rec, ms, ds_np, df_np, w, fields, ctx, dofs=None, tally="equiv", certify=None, ref_resid=None):
   """first-divergence comparison of one world; returns worst verdict.
 
   certify(w) (optional) re-runs the FULL solver warm-started at the compacted solution: 'stays' means the full solver
@@ -158,8 +179,31 @@ def compare_world(rec, ms, ds_np, df_np, w, fields, ctx, dofs=None, tally="equiv
   worst = "bit"
   nefc = int(ds_np["nefc"][w])
   cert = None
+  rank = {"bit": 0, "round": 1, "incon": 2, "viol": 3}
   for k in fields:
     a, b = ds_np[k][w], df_np[k][w]
+    if ref_resid is not None and k == "qfrc_constraint" and not (ms.is_sparse and nefc == 0):
+      # the reference determines qfrc_constraint only up to its own stationarity residual g = M qacc - qfrc_smooth -
+      # qfrc_constraint (float32 termination of the FULL problem, whose cost is dominated by the other trees)
+      aa, bb = (a[dofs], b[dofs]) if dofs is not None else (a, b)
+      g = np.abs(ref_resid[w][dofs] if dofs is not None else ref_resid[w])
+      if aa.size and np.all(np.isfinite(aa)) and np.all(np.isfinite(bb)) and np.all(np.isfinite(g)):
+        sc = max(1.0, float(np.abs(aa).max()), float(np.abs(bb).max()))
+        err = float(np.abs(aa.astype(np.float64) - bb.astype(np.float64)).max())
+        allow = 3.0 * float(g.max())
+        rec.worst("reference_residual_over_scale", float(g.max()) / sc)
+        if err > 1e-4 * sc:
+          if err <= allow + 1e-4 * sc:
+            rec.check()
+            rec.count(f"{tally}:{k}:explained_by_reference_residual")
+            worst = max(worst, "round", key=rank.get)
+            continue
+          if allow >= 1e-3 * sc and err < 30.0 * (allow + 1e-4 * sc):
+            rec.check()
+            rec.inconcl(f"{k}: reference solve too far from stationarity to judge the difference")
+            rec.count(f"{tally}:{k}:incon")
+            worst = max(worst, "incon", key=rank.get)
+            continue
     if certify is not None and k in ("qacc", "qfrc_constraint", "efc_force") and not (ms.is_sparse and nefc == 0):
       aa, bb = (a[:nefc], b[:nefc]) if k == "efc_force" else ((a[dofs], b[dofs]) if dofs is not None else (a, b))
       if k != "efc_force" and aa.size and np.all(np.isfinite(aa)) and np.all(np.isfinite(bb)):
@@ -694,9 +738,208 @@ def run_frozen(case, rec, sweep=False):
   rec.sample = {"kind": "nvmax", "seed": case["seed"], "ntree": int(nt), "nv": int(mjm_s.nv), "capacities": cands, "active_dof_counts": sorted(set(need.tolist())), "sparse": bool(ms.is_sparse)}
 
 
+# ------------------------------------------------------------------------------------------ history
+
+HIST_KINDS = ("box", "sphere", "capsule", "stack", "box", "sphere", "cart", "arm", "slider")
+HIST_W, HIST_T = 8, 6
+
+
+def stationarity_residual(mf, d):
+  """M qacc - qfrc_smooth - qfrc_constraint of a full (uncompacted) solve, per world and DOF (zero at the exact solution)."""
+  import warp as wp
+  from mujoco_warp._src import support
+
+  out = wp.zeros_like(d.qacc)
+  support.mul_m(mf, d, out, d.qacc)
+  return out.numpy().astype(np.float64) - d.qfrc_smooth.numpy() - d.qfrc_constraint.numpy()
+
+
+def tree_dofs(mjm, trees):
+  return np.concatenate([np.arange(mjm.tree_dofadr[t], mjm.tree_dofadr[t] + mjm.tree_dofnum[t]) for t in trees] + [np.zeros(0, int)]).astype(int)
+
+
+def run_history(case, rec):
+  """One Data with a requested DOF capacity (mostly nvmax_pad < nv) driven through a history of awake sets.
+
+  Every world walks its own schedule of asleep group-subsets (trees owning high-index DOFs awake first and asleep later
+  and vice versa, sets changing at every call, calls above capacity interleaved with calls that fit).  After every call:
+  NVMAX bit <=> awake DOF count > nvmax; for worlds that fit: compaction maps consistent, frozen DOFs exactly zero,
+  awake DOFs equal to the full solve of the same state.
+  variant 'sleep':  sleep-enabled model, trees forced asleep / woken through tree_asleep + update_sleep, mjw.forward;
+  variant 'direct': flag-free model, tree_awake written, update_active_dofs + smooth_solve_compact + solve_compact called
+                    directly after the full forward of the same Data (as the repository's tests do).
+  """
+  import mujoco_warp as mjw
+  import warp as wp
+  from mujoco_warp._src import island as island_mod
+  from mujoco_warp._src import solver as solver_mod
+
+  direct = bool(case["direct"])
+  b = build(case, rec, ntree=(4, 7), p_touch=0.15, links=case["seed"] % 3 == 0, kinds=HIST_KINDS, min_nv=24)
+  if b is None:
+    return
+  rng, xml, meta, mjm_s, mjm_f, ms, mf, integ = b
+  nt, nv = int(mjm_s.ntree), int(mjm_s.nv)
+  base = rand_states(rng, mjm_s, 1, vel=0.0, lift=0.0)[0]
+  if mjm_s.neq:
+    base["eq_active"] = rng.random(mjm_s.neq) < 0.4
+  groups = island_groups(mjw, mjm_f, mf, base)
+  never = [t for t in range(nt) if mjm_s.tree_sleep_policy[t] == int(mujoco.mjtSleepPolicy.mjSLEEP_AUTO_NEVER)]
+  groups_ok = [g for g in groups if not any(t in never for t in g)]
+  ng = len(groups_ok)
+  variant = "direct" if direct else "sleep"
+  rec.cover(f"kind:history:{variant}", 1)
+  if ng < 2 or nv < 8:
+    rec.count("history:scene_with_fewer_than_2_sleepable_groups")
+    return
+  # capacity: mostly so small that the padded compact width stays below nv (dof_cdof is wider than cdof_dof)
+  hi = 16 * ((nv - 1) // 16) - 1  # largest nvmax with 16 * (nvmax // 16 + 1) < nv
+  if hi >= 6 and rng.random() < 0.8:
+    nvmax = int(rng.integers(6, hi + 1))
+  else:
+    nvmax = int(rng.integers(4, nv))
+  W, T = HIST_W, HIST_T
+  order = sorted(range(ng), key=lambda gi: min(groups_ok[gi]))
+  lowg, highg = order[: ng // 2], order[ng // 2 :]
+  p_sleep = rng.choice([0.4, 0.6, 0.8], size=W)
+  sched = []  # sched[c][w] = bitmask of trees asked to sleep
+  for c in range(T):
+    row = []
+    for w in range(W):
+      gs = [gi for gi in range(ng) if rng.random() < p_sleep[w]]
+      if w < 2 and c < 2:
+        gs = lowg if (c + w) % 2 == 0 else highg  # world 0: high trees awake, then low trees awake; world 1: the reverse
+      row.append(sum(1 << t for gi in gs for t in groups_ok[gi]))
+    sched.append(row)
+  zero = np.zeros(nv, np.float32)
+  sts0 = [dict(base, qvel=zero) for _ in range(W)]
+  mm, mjm = (mf, mjm_f) if direct else (ms, mjm_s)
+  dd = mw.make_data(mjm, mm, sts0, nconmax=NCONMAX, njmax=NJMAX, nvmax=nvmax)
+  pad = int(dd.nvmax_pad)
+  df = None if direct else mw.make_data(mjm_f, mf, sts0, nconmax=NCONMAX, njmax=NJMAX)
+  rec.cover("history:nvmax_pad_below_nv_cases" if pad < nv else "history:nvmax_pad_at_least_nv_cases", 1)
+  rec.cover("history:nvmax_pad", [str(pad)])
+  mapped = [set() for _ in range(W)]  # DOFs that received a compact index at an earlier call of this world
+  overflowed = np.zeros(W, dtype=bool)
+  if not direct:
+    # every tree awake once (kinematics of all bodies, and the first nvmax DOFs get mapped; above capacity unless nvmax >= nv)
+    mjw.forward(ms, dd)
+    for w in range(W):
+      mapped[w] |= set(range(min(nv, nvmax)))
+      overflowed[w] = nv > nvmax
+  prev_awake = [None] * W
+  cert = Certifier(mjw, mjm_f, mf, sts0)
+  nfit = nover = nretired = nafter = nchange = nfro = nawk = 0
+  for c in range(T):
+    masks = sched[c]
+    qvel = (rng.normal(size=(W, nv)) * 0.5).astype(np.float32)
+    for w in range(W):
+      qvel[w, tree_dofs(mjm_s, [t for t in range(nt) if (masks[w] >> t) & 1])] = 0
+    for d_ in (dd, df):
+      if d_ is not None:
+        wp.copy(d_.qvel, wp.array(qvel, dtype=float))
+        d_.qacc_warmstart.zero_()
+    if case.get("fresh_before_call") == c:
+      # diagnosis aid for replays (never set by cases()): the same call on a Data without history
+      dd = mw.make_data(mjm, mm, sts0, nconmax=NCONMAX, njmax=NJMAX, nvmax=nvmax)
+      wp.copy(dd.qvel, wp.array(qvel, dtype=float))
+      if not direct:
+        mjw.forward(ms, dd)
+    pre = snap(dd, ("qpos", "qvel"))
+    if direct:
+      mjw.forward(mf, dd)  # full solve of the same Data: reference, and fills qacc / qfrc_constraint of every DOF
+      full = snap(dd, FWD)
+      resid = stationarity_residual(mf, dd)
+      ta = np.array([[0 if (masks[w] >> t) & 1 else 1 for t in range(nt)] for w in range(W)], dtype=np.int32)
+      wp.copy(dd.tree_awake, wp.array(ta, dtype=int))
+      dd.qacc_warmstart.zero_()
+      dd.overflow.zero_()
+      island_mod.update_active_dofs(mf, dd)
+      solver_mod.smooth_solve_compact(mf, dd)
+      solver_mod.solve_compact(mf, dd)
+    else:
+      mjw.forward(mf, df)
+      full = snap(df, FWD)
+      resid = stationarity_residual(mf, df)
+      force_asleep(ms, dd, mjm_s, masks, groups_ok)
+      dd.overflow.zero_()
+      mjw.forward(ms, dd)
+    mid = snap(dd, FWD + ("tree_awake", "ncdof", "overflow"), mm)
+    Rs = Rf = None
+    certf = None
+    for w in range(W):
+      awake = mid["tree_awake"][w] == 1
+      act = tree_dofs(mjm_s, [t for t in range(nt) if awake[t]])
+      fro = np.setdiff1d(np.arange(nv), act)
+      need = len(act)
+      if prev_awake[w] is not None and not np.array_equal(prev_awake[w], awake):
+        nchange += 1
+      prev_awake[w] = awake.copy()
+      ctx = f"[{variant} call {c} world {w} awake trees {np.nonzero(awake)[0].tolist()} active DOFs {need} nvmax {nvmax} nvmax_pad {pad} nv {nv} nefc {int(mid['nefc'][w])} sparse {bool(mm.is_sparse)}]"
+      bit = bool(int(mid["overflow"][w]) & NVMAX_BIT)
+      rec.check()
+      was_mapped, was_over = mapped[w], bool(overflowed[w])
+      mapped[w] = was_mapped | set(int(v) for v in act[:nvmax])
+      if need > nvmax:
+        nover += 1
+        overflowed[w] = True
+        rec.cover("capacity_minus_need", [str(int(nvmax - need))] if nvmax - need >= -2 else [])
+        if not bit:
+          rec.viol("nvmax:bit_not_set", f"{need} active DOFs exceed nvmax {nvmax} but OverflowType.NVMAX is not set (overflow={int(mid['overflow'][w])}) {ctx}")
+        continue  # above capacity: values are not defined
+      nfit += 1
+      nafter += int(was_over)
+      retired = [int(v) for v in fro if v >= pad and int(v) in was_mapped]
+      nretired += int(bool(retired))
+      if bit:
+        rec.viol("nvmax:bit_set_within_capacity", f"{need} active DOFs fit nvmax {nvmax} but OverflowType.NVMAX is set {ctx}")
+      check_compaction_maps(rec, mjm_s, dd, w, awake, ctx)
+      if len(fro):
+        nfro += 1
+        for k in ("qacc", "qfrc_constraint", "qacc_smooth"):
+          rec.check()
+          if np.any(mid[k][w][fro] != 0):
+            bad = fro[np.nonzero(mid[k][w][fro])[0]]
+            rec.viol(f"frozen:{k}_nonzero", f"frozen DOFs {bad.tolist()} have {k} {mid[k][w][bad].tolist()} (DOFs mapped earlier and asleep now: {retired}) {ctx}")
+      if len(act):
+        nawk += 1
+        nw = int(mid["nefc"][w])
+        if int(mid["solver_niter"][w]) >= ITER or int(full["solver_niter"][w]) >= ITER:
+          rec.count("history:ungated_iterlimit")
+        elif not np.all(np.isfinite(full["qacc"][w])) or (nw and float(np.abs(mid["_D"][w][:nw]).max()) > 1e10):
+          rec.count("history:ungated_degenerate_reference")
+        else:
+          if not direct:
+            if Rs is None:
+              Rs, Rf = _isl.Rows(ms, dd), _isl.Rows(mf, df)
+            if awake_rows(mjm_s, Rs, dd, w, awake) != awake_rows(mjm_s, Rf, df, w, awake):
+              rec.count("history:ungated_awake_row_structure")
+              continue
+          if certf is None:
+            certf = cert(pre["qpos"], pre["qvel"], mid["qacc"], full["qacc"], c)
+          rec.count("history:awake_worlds_compared")
+          compare_world(rec, mm, mid, full, w, ("qacc_smooth", "qacc", "qfrc_constraint"), ctx, dofs=act, tally="history_awake", certify=certf, ref_resid=resid)
+    if len([v for v in rec.violations if not v["sig"].startswith("compact:sparse:nefc0:")]) >= 6:
+      break
+  rec.cover("history:calls", int((c + 1) * W))
+  rec.cover("history:calls_within_capacity", nfit)
+  rec.cover("history:calls_above_capacity", nover)
+  rec.cover("history:calls_within_capacity_after_an_overflow", nafter)
+  rec.cover("history:awake_set_changes", nchange)
+  rec.cover("history:calls_with_frozen_dofs", nfro)
+  if pad < nv:
+    rec.cover("history:calls_with_retired_dofs_beyond_nvmax_pad", nretired)
+    rec.cover(f"history:{variant}:calls_with_retired_dofs_beyond_nvmax_pad", nretired)
+  if nfit and nover and nchange:
+    rec.nontrivial("history", variant, xml, nvmax, tuple(tuple(r) for r in sched))
+  rec.sample = {"kind": "history", "variant": variant, "seed": case["seed"], "ntree": nt, "nv": nv, "nvmax": nvmax, "nvmax_pad": pad, "groups": groups_ok, "sparse": bool(mm.is_sparse), "asleep_masks_world0": [hex(r[0]) for r in sched], "calls_with_retired_dofs_beyond_nvmax_pad": nretired}
+
+
 def run_case(case):
   rec = core.Rec(case)
-  if case["kind"] == "equiv":
+  if case["kind"] == "history":
+    run_history(case, rec)
+  elif case["kind"] == "equiv":
     run_equiv(case, rec)
   elif case["kind"] == "frozen":
     run_frozen(case, rec)
@@ -720,6 +963,19 @@ def requirements(agg, tier):
     unmet.append("fewer than 100 subset worlds with frozen trees")
   if cov.get("nvmax_worlds_above_capacity", 0) < 50 or cov.get("nvmax_worlds_within_capacity", 0) < 50:
     unmet.append("capacity sweep did not cover both sides of the boundary")
+  # awake-set histories on one Data with a small requested capacity
+  lim = {"quick": 1, "thorough": 8}[tier]
+  for variant in ("sleep", "direct"):
+    if cov.get(f"history:{variant}:calls_with_retired_dofs_beyond_nvmax_pad", 0) < 10 * lim:
+      unmet.append(f"history ({variant}): fewer than {10 * lim} calls within capacity in which DOFs beyond nvmax_pad that were mapped earlier are asleep")
+  if cov.get("history:nvmax_pad_below_nv_cases", 0) < 4 * lim:
+    unmet.append(f"history: fewer than {4 * lim} cases with nvmax_pad < nv")
+  if cov.get("history:calls_within_capacity_after_an_overflow", 0) < 20 * lim or cov.get("history:calls_above_capacity", 0) < 20 * lim:
+    unmet.append("history: calls above capacity followed by calls within capacity not observed often enough")
+  if cov.get("history:awake_set_changes", 0) < 100 * lim:
+    unmet.append(f"history: fewer than {100 * lim} changes of the awake set between consecutive calls")
+  if tal.get("history:awake_worlds_compared", 0) < 100 * lim:
+    unmet.append(f"history: fewer than {100 * lim} worlds within capacity whose awake DOFs were compared with the full solve")
   cm = set(cov.get("capacity_minus_need", []))
   for v in ("-1", "0", "1"):
     if v not in cm:
